@@ -2077,8 +2077,10 @@ def obl_learn(check, conv_table, thorough=False, budget_s=None, quoted_only=Fals
     shapes += special_term_shapes([t for t in SPECIAL_TERMS if any(ch.isalnum() for ch in t)], **dict(kw, fixed={"ansi": False, "include_english": False}))
     # "... for that word followed by a known suffix it points at the correspondingly joined candidate": words of 2 and 3 letters, the learned
     # choices of the prefixes and the table's answers for the tails any
-    shapes += base_shapes([("", "")], [2, 3], conv_table, **dict(kw, mode="single", suffixes=True, preselect_base=True, emoji_names=False, dict_max=1,
-                                                                 fixed={"ansi": False, "include_english": False, "smart_quote": False}))
+    pb = dict(kw, mode="single", suffixes=True, preselect_base=True, emoji_names=False, dict_max=1, fixed={"ansi": False, "include_english": False, "smart_quote": False})
+    shapes += base_shapes([("", "")], [3], conv_table, **pb)
+    # the joined form offered by the dictionary, not necessarily first (two words of two characters: a one-character choice + a one-character suffix form)
+    shapes += base_shapes([("", "")], [2, 3] if thorough else [2], conv_table, **dict(pb, dict_len=2, dict_max=2))
     check.bounds["learn_roundtrip"] = dict(word="1%s symbolic letters/digits; 3 with suffix split points; 2-3 letters read as learned word + known suffix" % ("-2" if thorough else ""),
                                            wrappers=[s["pre"] + "W" + s["trail"] for s in shapes][:10], commit="any index other than the preselected one",
                                            data="0-1 dictionary word, emoji name present or absent, earlier learned entry any", options="English, smart quotes symbolic")
